@@ -19,7 +19,7 @@ pub fn spec() -> Spec {
                Non-trivial = series with >= 3 knots; distinct = hash of the data bits and the operation chain.",
         assumptions: &[
             "structural invariant after every constructor/derivation: abscissae finite and ascending, as many ordinates as abscissae - or an Err / a loud panic, never a silently invalid object",
-            "slices are requested with bounds inside the domain; levels equal to a flat segment are not generated for y_crossings",
+            "slices are requested with bounds inside the domain; for a flat run lying on the level the crossings must contain the knots of the run (the interpolant equals the level on the whole run)",
             "function-preservation tolerance 1e-9*(|y| range) + 1e-12",
         ],
         streams: vec![
@@ -411,10 +411,31 @@ fn run_series(c: &mut Ctx) {
     }
     // ---- level crossings (strictly increasing abscissae; level not equal to a flat segment)
     if !repeats {
-        // a level in general position, or exactly one of the stored ordinates
-        let level = if c.rng.chance(0.35) { ys[c.rng.int(0, n - 1)] } else { c.rng.range(-3.0, 3.0) };
-        let flat = (0..n - 1).any(|i| ys[i] == level && ys[i + 1] == level);
-        if !flat {
+        // a level in general position, or exactly one of the stored ordinates, or the ordinate of a
+        // flat run (one case in five: a copy of the series with 1-3 consecutive equal ordinates)
+        let mut ys = ys.clone();
+        let mut level = if c.rng.chance(0.35) { ys[c.rng.int(0, n - 1)] } else { c.rng.range(-3.0, 3.0) };
+        let mut s = s.clone();
+        let mut pl = Pl { x: xs.clone(), y: ys.clone() };
+        let mut class = class;
+        if n >= 3 && c.rng.chance(0.2) {
+            let i = c.rng.int(0, n - 2);
+            let run = c.rng.int(1, 3).min(n - 1 - i);
+            for k in 1..=run {
+                ys[i + k] = ys[i];
+            }
+            if c.rng.chance(0.1) {
+                ys.iter_mut().for_each(|y| *y = 0.0); // an identically zero series at level 0
+            }
+            level = ys[i];
+            if let Ok(Ok(s2)) = guard(|| Series1::try_new(xs.clone(), ys.clone())) {
+                s = s2;
+                pl = Pl { x: xs.clone(), y: ys.clone() };
+                class = "flat-run-on-the-level";
+                c.set_case(json!({"xs": xs, "ys": ys, "level": level}));
+            }
+        }
+        {
             let r = guard(|| s.y_crossings(level));
             c.eval();
             match r {
